@@ -86,6 +86,18 @@ def throttle_stage(ctx, sd, exe, q, minsize, maxsize):
         ctx.cov(throttle_trace_events_validated=int(r3.stats.get("events", 0)))
 
 
+def never_taken(res):
+    """actions whose count is 0:0 in the FINAL coverage report (TLC also prints interim reports, in which an action
+    may legitimately still be at 0 while the initial states are being computed; vlib collects zeros from all reports)"""
+    import re
+    last = {}
+    for line in res.tail:
+        m = re.match(r"^<(\w+) line .*>: (\d+):(\d+)$", line)
+        if m:
+            last[m.group(1)] = (int(m.group(2)), int(m.group(3)))
+    return sorted(a for a in set(res.coverage_zero) if last.get(a) == (0, 0))
+
+
 def run(ctx):
     sd = ctx.stage()
     q = ctx.quick
@@ -137,8 +149,8 @@ def run(ctx):
         r1 = ctx.tlc(sd, "MC_BodySize", _cfg(sd, "r1.cfg", depth=2, calibs='"worstCase"',
                                              curmaxes="%d, %d" % (maxsize, mid), rest=INVS, **dict(base, **big)),
                      timeout=3000, coverage=True)
-        if r1.ok and r1.coverage_zero:
-            ctx.broken.append("vacuity: actions never taken in R1: %s" % sorted(set(r1.coverage_zero)))
+        if r1.ok and never_taken(r1):
+            ctx.broken.append("vacuity: actions never taken in R1: %s" % never_taken(r1))
         ctx.tlc(sd, "MC_BodySize", _cfg(sd, "r1d3.cfg", depth=3, calibs='"worstCase"', curmaxes="%d, %d" % (maxsize, mid),
                                         rest=INVS, **dict(base, counts="1, 1000", ntxs="0, 1, 10, 482",
                                                           ids='"zero", "cal", "metaall"', types="0, 255")), timeout=3000)
